@@ -167,6 +167,7 @@ impl Sess {
 }
 
 struct Stats {
+    relearn_after_unlearn: u64,
     commits: u64,
     commits_disabled: u64,
     commits_file: u64,
@@ -764,7 +765,41 @@ fn scenario(rng: &mut Rng, out: &mut Out, st: &mut Stats, file_backed: bool, lon
     let mut s = new_session(&b, user, file_backed, out);
     let steps = if file_backed { 3 } else { 4 + rng.below(4) };
     for _ in 0..steps {
-        match rng.below(10) {
+        match rng.below(12) {
+            // learn X, make the user dictionary forget X (`unlearn_phrase` = chewing_userphrase_remove), choose and
+            // commit X again: the statement holds for that commit like for any other (recorded again, frequency
+            // rising, default within the bound, persisted) - a forgotten phrase is not barred from being learned
+            10..=11 if !b.multi_keys.is_empty() => {
+                set_disabled(&mut s, false);
+                let key = rng.pick(&b.multi_keys).clone();
+                let m = s.merged(&key);
+                if m.len() < 2 {
+                    continue;
+                }
+                let x = (*rng.pick(&m.keys().collect::<Vec<_>>())).clone();
+                let first_reps = 1 + rng.below(2) as usize;
+                becomes_default(&mut s, out, st, rng, &key, &x, first_reps);
+                let syl_key: Vec<Syllable> = key.iter().map(|c| Syllable::try_from(*c).unwrap()).collect();
+                if !user_view(&mut s.ed).contains_key(&(key.clone(), x.clone())) {
+                    continue; // not recorded: already reported by `commit`
+                }
+                if s.ed.unlearn_phrase(&syl_key, &x).is_err() {
+                    continue;
+                }
+                if user_view(&mut s.ed).contains_key(&(key.clone(), x.clone())) {
+                    out.oracle_fail(PROP, "new", &format!("unlearn-kept key={} x={}", enc_key(&key), hx(&x)));
+                    continue;
+                }
+                st.relearn_after_unlearn += 1;
+                if s.merged(&key).contains_key(&x) {
+                    // still a candidate (a system dictionary holds it too): choose it and commit again
+                    let max_reps = if file_backed { 4 } else if long_loops { REPEAT_BOUND + 2 } else { 3 + rng.below(6) as usize };
+                    becomes_default(&mut s, out, st, rng, &key, &x, max_reps);
+                    if !user_view(&mut s.ed).contains_key(&(key.clone(), x.clone())) {
+                        out.oracle_fail(PROP, "new", &format!("not-recorded-after-unlearn key={} x={}", enc_key(&key), hx(&x)));
+                    }
+                }
+            }
             0..=4 if !b.multi_keys.is_empty() => {
                 set_disabled(&mut s, false);
                 let key = rng.pick(&b.multi_keys).clone();
@@ -948,6 +983,7 @@ fn main() {
     let mut rng = Rng::new(seed_from_env());
     let mut out = Out::new();
     let mut st = Stats {
+        relearn_after_unlearn: 0,
         commits: 0, commits_disabled: 0, commits_file: 0, units_multi: 0, units_run: 0, units_run_len2: 0, units_break: 0,
         singles_in_run: 0, non_phrase_ivs: 0, first_time: 0, updates: 0, default_loops: 0, default_reached: 0, max_reps: 0,
         rep_hist: BTreeMap::new(), cand_checks: 0, reopen_checks: 0, gap_small: 0, gap_mid: 0, gap_large: 0, ties: 0,
@@ -981,6 +1017,7 @@ fn main() {
     out.stat("first_time_learned", st.first_time);
     out.stat("updates", st.updates);
     out.stat("default_loops", st.default_loops);
+    out.stat("relearn_after_unlearn", st.relearn_after_unlearn);
     out.stat("default_reached", st.default_reached);
     out.stat("max_repetitions_needed", st.max_reps);
     for (k, v) in &st.rep_hist {
